@@ -75,4 +75,16 @@ ENTRIES = {
             "fields must contain the closure of the current elements.",
             "Retraction (removal of consequences of elements that left the field) is outside the statement and not checked.",
             "DESIGN.md section 3 C16"),
+    "C20": ("model_checking",
+            "stateless exploration of all create/relate/query/drop histories, repeated 3x, weak-reference census + container-size oracle, holder attribution by intervention",
+            "Every operation sequence to depth 5 (thorough 6) over {new person, new company, relate, explicit-domain query, "
+            "partially consumed query, domain-less query, drop} is run three times in one process on the real library, each "
+            "repetition closed by dropping all user references and gc.collect(); afterwards every harness weak reference must "
+            "be dead, domain-less variables must be empty and every SymbolGraph container must be back to its empty size. "
+            "Survivors are attributed by emptying krrood's expression registries and collecting again; only survivors that a "
+            "query ranged over (or that are related to such an object) match the recorded open finding.",
+            "Open findings C20-F1/F2 (process-wide strong expression registries) mean that in histories with explicit or "
+            "domain-less queries over live objects a second, independent holder of the same objects would go unnoticed; "
+            "histories without such queries are checked fully. CPython 3.12.",
+            "DESIGN.md section 3 C20"),
 }
